@@ -168,6 +168,12 @@ DoSetHW(h) ==
      ELSE UNCHANGED <<rd, wait>>
   /\ UNCHANGED <<cfg, segs, active, listed, ro, app, rol, tog, del>>
 
+\* Two SetHighWatermark calls at the same time (a leader with replication
+\* factor 1 has two HW writers: the fast path of the message loop and the
+\* commit loop; a follower has the replication responses): two critical
+\* sections in either order - the result is the same
+DoSetHW2(h1, h2) == DoSetHW(IF h1 > h2 THEN h1 ELSE h2)
+
 -----------------------------------------------------------------------------
 (* SetReadonly(b): atomic store, then (b = TRUE) notifyReadonly under lock  *)
 
@@ -272,6 +278,10 @@ RNext(r) == RStart(r) \/ RLoad(r) \/ RWait(r) \/ RSync(r)
 
 \* the HW never moves backwards
 P_HW == hw' >= hw
+
+\* the HW never moves backwards also means: once SetHighWatermark(h) has
+\* returned the HW is at least h (whoever else sets it at the same time)
+P_HWSet(hs) == \A h \in hs : hw' >= h
 
 \* a reader is handed, one at a time, the next offset of a gap-free run that
 \* starts at or before its position, and never an offset above the HW
